@@ -1115,3 +1115,43 @@ Proof.
   exists [2; 5], [Arrive (Ok (new_cpx 2 T_HOST T_STM32 [7])); Recv 5], 5, (new_cpx 2 T_HOST T_STM32 [7]).
   split; [vm_compute; auto|vm_compute; discriminate].
 Qed.
+
+(* ================================================================ connection histories on one transport object *)
+Lemma t_run_app : forall pre s0 s2 evs, t_run s0 (pre ++ TReconnect s2 :: evs) = t_run s0 pre ++ t_run s2 evs.
+Proof.
+  induction pre as [|[|s] pre IH]; intros s0 s2 evs; cbn [app t_run].
+  - reflexivity.
+  - destruct (read_packet s0) as [x s1]. cbn [app]. now rewrite IH.
+  - apply IH.
+Qed.
+
+Lemma t_run_reads : forall n s, t_run s (repeat TRead n) = fst (read_n n s).
+Proof.
+  induction n as [|n IH]; intros s; cbn [repeat t_run read_n]; [reflexivity|].
+  destruct (read_packet s) as [x s1]. rewrite IH. destruct (read_n n s1). reflexivity.
+Qed.
+
+(* whatever happened on earlier connections of the same transport object (any reads, any point at which a stream broke off,
+   any number of reconnects): the packets read on a new connection are the parse of ITS stream alone *)
+Lemma session_independent : forall pre s0 s2 n,
+  t_run s0 (pre ++ TReconnect s2 :: repeat TRead n) = t_run s0 pre ++ fst (read_n n s2).
+Proof. intros. now rewrite t_run_app, t_run_reads. Qed.
+
+Lemma session_reassembly : forall pre s0 s2 ps, Forall wf_cpx ps -> chunking s2 (concat (map frame ps)) ->
+  t_run s0 (pre ++ TReconnect s2 :: repeat TRead (length ps)) = t_run s0 pre ++ map Ok ps.
+Proof.
+  intros pre s0 s2 ps Hwf Hch. rewrite session_independent.
+  destruct (stream_reassembly ps s2 Hwf Hch) as (s' & H & _). now rewrite H.
+Qed.
+
+(* carried-over partial state: a stream that broke off inside a frame is spliced onto the next connection's stream *)
+Definition cut_p : cpx := new_cpx F_CRTP T_HOST T_STM32 [0x5E; 1; 2].
+Definition new_p : cpx := new_cpx 5 T_HOST 4 [9].
+Lemma carried_state_refuted :
+  exists s1 s2, chunking s2 (frame new_p) /\
+    t_run s1 [TRead; TReconnect s2; TRead] = [Exc EndOfStream; Ok new_p] /\
+    ts_run (None, []) s1 [TRead; TReconnect s2; TRead] <> [Exc EndOfStream; Ok new_p].
+Proof.
+  exists [firstn 5 (frame cut_p)], [frame new_p]. split; [split; [reflexivity|repeat constructor; discriminate]|].
+  split; [reflexivity|vm_compute; discriminate].
+Qed.
